@@ -10,6 +10,8 @@ Clause(tr, e) ==
     [] e.op = "reflexive" -> ReflexiveClause(e)
     [] e.op = "finder" -> FinderClause(e)
     [] e.op = "reload" -> ReloadClause(e)
+    [] e.op = "bisim" -> IF e.claim = "check" /\ ~BisimAgrees(e) /\ PrintT(<<"INFO", tr.tid, "library-test-disagrees-with-bisimulation", e.ans>>)
+                         THEN "ok" ELSE BisimClause(e)
     [] OTHER -> "UnknownEvent"
 Init == t = 1 /\ l = 1 /\ TLCSet(1, 0)
 Step == /\ t <= Len(Traces) /\ l <= Len(Traces[t].events)
